@@ -47,12 +47,29 @@ let model fs = match fs with
 let spec fs obs =
   if List.mem "LEAK" obs || List.mem "MAPCOUNT" obs || List.mem "CRASH" obs || List.mem "TIMEOUT" obs then "bad" else
   match fs, obs with
-  | ["d1"; file; _], ["F"; off] ->
-      let n = if file = "-" then 0 else String.length file / 2 in
-      (match int_of_string_opt off with Some o when o >= 2048 && o <= n -> "ok" | _ -> "bad")
+  | ["d1"; file; key], ["F"; off] ->
+      (* the pointer lies behind a record header and the key, and the record's data ends inside the file *)
+      let fb = Array.of_list (ints_of_hex file) in
+      let n = Array.length fb in
+      let kl = List.length (ints_of_hex key) in
+      (match int_of_string_opt off with
+       | Some o when o >= 8 + kl && o <= n ->
+           let w p = fb.(p) + 256 * fb.(p + 1) + 65536 * fb.(p + 2) + 16777216 * fb.(p + 3) in
+           if w (o - kl - 8) = kl && o + w (o - kl - 4) <= n then "ok" else "bad"
+       | _ -> "bad")
   | ["d1"; _; _], ["N"; _] -> "ok"
   | ["d2"; _; _], [rc; _] -> (match int_of_string_opt rc with Some _ -> "ok" | None -> "bad")
-  | ["a1"; _], (_ :: looks) -> if List.mem "N" looks then "bad" else "ok"
+  | ["a1"; recs], (_ :: looks) ->
+      (* every 7 bit key of a made database is found (cdb_hash() sign-extends plain char: other keys need not be) *)
+      (match (try Some (parse_records recs) with Failure _ -> None) with
+       | None -> "pre"
+       | Some rs ->
+           let rec go rs looks = match rs, looks with
+             | [], [] -> true
+             | (k, _) :: rs', tag :: _ :: looks' ->
+                 (tag = "F" || List.exists (fun b -> int_of_n b >= 128) k) && go rs' looks'
+             | _ -> false in
+           if go rs looks then "ok" else "bad")
   | _ -> "pre"
 
 let () =
